@@ -9,6 +9,7 @@ K.register_module("std_abs", "src/stdlib/abs.rs", "stdlib::abs::kani_verif", STD
 K.register_module("std_mod", "src/stdlib/mod_func.rs", "stdlib::mod_func::kani_verif", STD)
 K.register_module("std_to_int", "src/stdlib/to_int.rs", "stdlib::to_int::kani_verif", STD)
 K.register_module("std_to_float", "src/stdlib/to_float.rs", "stdlib::to_float::kani_verif", STD)
+K.register_module("std_ip_subnet", "src/stdlib/ip_subnet.rs", "stdlib::ip_subnet::kani_verif", STD)
 K.register_module("std_format_int", "src/stdlib/format_int.rs", "stdlib::format_int::kani_verif", STD)
 K.register_module("query", "src/compiler/expression/query.rs", "compiler::expression::query::kani_verif", "compiler")
 K.register_module("assignment", "src/compiler/expression/assignment.rs", "compiler::expression::assignment::kani_verif", "compiler")
@@ -147,11 +148,11 @@ PROPS["C29"] = dict(
 )
 PROPS["C25"] = dict(
     level="proof",
-    text="format_int/parse_int: the real format_radix body (Verus, every i64, every radix 2..=36): sign, digit validity, positional value == |x|, no overflow at i64::MIN, termination; round trip is a lemma over this contract and std's from_str_radix contract",
-    verus=["v_format_radix"],
+    text="from_unix_timestamp/to_unix_timestamp: both real bodies extracted and verified by Verus against chrono's documented accessors (instant = v units after the epoch; floored counts), the round trip is a machine-checked lemma over the two contracts for every i64 and all four units. format_int/parse_int: the real format_radix body (Verus, every i64, every radix 2..=36): sign, digit validity, positional value == |x|, no overflow at i64::MIN, termination; round trip is a lemma over this contract and std's from_str_radix contract",
+    verus=["v_format_radix", "v_unix_timestamp"],
     kani=[],
-    trusted=["std::char::from_digit and i64::from_str_radix contracts (assumed, std)", "String = chars in order (the final collect)", "format_int's base check `(2..=36).contains(&base)` establishes the radix precondition (read, not verified)"],
-    not_covered=["flatten/unflatten, to_entries/from_entries, ip_* pairs (std Ipv4Addr/Ipv6Addr parsers)", "format_timestamp/parse_timestamp (chrono strftime/strptime)", "to_unix_timestamp/from_unix_timestamp (chrono arithmetic; Kani unit pending)"],
+    trusted=["verus prelude unixts.rs: DateTime<Utc> as nanoseconds since the epoch inside chrono's range; chrono accessors by their documentation", "std::char::from_digit and i64::from_str_radix contracts (assumed, std)", "String = chars in order (the final collect)", "format_int's base check `(2..=36).contains(&base)` establishes the radix precondition (read, not verified)"],
+    not_covered=["flatten/unflatten, to_entries/from_entries, ip_* pairs (std Ipv4Addr/Ipv6Addr parsers)", "format_timestamp/parse_timestamp (chrono strftime/strptime)", "chrono itself: Utc.timestamp_opt / timestamp_millis_opt / timestamp_micros / timestamp_nanos and DateTime::timestamp* are assumed contracts (prelude unixts.rs)"],
     technique="contract-based deductive verification (Verus on the mechanically extracted real body, loop invariant + nonlinear lemmas)",
 )
 
@@ -160,7 +161,7 @@ PROPS["C28"] = dict(
     text="collection laws that live in vrl code: slice agrees with positional indexing (every array/string, every i64 start/end, incl. negative positions and error cases), "
          "length agrees with the container, merge has from's values on shared keys / recursive merge of objects under `deep` to every depth -- the real bodies of stdlib slice, length and merge_maps, extracted and verified by Verus; "
          "the string laws (casing, strip_whitespace, split/join, starts_with/ends_with/contains, truncate, strlen) and unique/compact/keys/values are std str/IndexSet/BTreeMap calls outside both verifiers: they are covered only by bounded native stand-ins (labelled bounded, never counted as proved)",
-    verus=["v_collections"],
+    verus=["v_collections", "v_find"],
     kani=[],
     bounded_native=[dict(unit="collection_laws", bound="arrays and strings of length 0..4 x start,end in -6..6 (and no end); 57 objects of depth <= 3 pairwise, deep and shallow",
                          functions=["stdlib slice/length/merge through compiled VRL programs (argument plumbing: SliceFn/LengthFn/MergeFn::resolve)"],
@@ -188,7 +189,10 @@ PROPS["C05"] = dict(
     kani=[],
     bounded_native=[dict(unit="format_number", bound="14 scripted calls (finite, infinite and out-of-range values x absent, negative, zero, positive and i64::MIN scales), each in a child process under a 10 s watchdog and a 2 GB address-space limit",
                          functions=["stdlib format_number through compiled VRL programs"],
-                         text="format_number called from VRL returns promptly with exactly max(scale, 0) fraction digits and without panicking on the scripted calls")],
+                         text="format_number called from VRL returns promptly with exactly max(scale, 0) fraction digits and without panicking on the scripted calls"),
+                    dict(unit="stdlib_watchdog", bound="90 scripted stdlib calls with empty / zero / negative / extreme arguments and empty-matching regexes, each compiled and run in a child process under a 10 s watchdog and a 2 GB address-space limit",
+                         functions=["stdlib zip, sieve, replace, split, find, parse_regex_all, chunks, truncate, slice, format_int, format_number, flatten, unflatten, compact, parse_key_value, parse_csv, set/get/remove, the closure functions, match_datadog_query, redact, casing, ip_subnet, round/ceil/floor, ... (see WATCHDOG_PROGRAMS in /verif/replay/src/main.rs)"],
+                         text="no contract reaches these loops (iterator adapters, regex, str): on the scripted calls every function ends with a value or an error - no hang, no unbounded growth, no panic")],
     trusted=["verus prelude formatnum.rs: String as a sequence of chars (push/truncate/len), Decimal/f64 Display produce at most one '.', split('.') yields one or two parts for such a text, rust_decimal from_f64 may answer None",
              "the grouping section of format_number (chars/skip/enumerate/filter + insert_str) is replaced by an opaque call that only touches the integral part: NOT verified (it is linear in the integral part by inspection)",
              "a `for` over a Range terminates (vstd); a positive scale is honoured literally, so the output is proportional to the scale's value, not to its encoded size (by design of the function)"],
@@ -242,11 +246,17 @@ PROPS["C15"] = dict(
 PROPS["C04"] = dict(
     level="proof",
     text="panic-freedom as a by-product of every unit: each Verus unit discharges the body-safety obligations of its function (arithmetic overflow, index bounds, unwrap/expect/unreachable!, callee preconditions, loop termination) and each Kani unit discharges every reachable CBMC built-in check (panics, overflow checks, out-of-bounds, invalid memory) of the code it exercises, for all inputs of its domain",
-    verus=["v_format_radix", "v_format_number", "v_crud_vec", "v_closure_runner", "v_op_resolve", "v_nodes", "v_value_error_from", "v_target_ops", "v_read_only"],
+    verus=["v_format_radix", "v_format_number", "v_find", "v_crud_vec", "v_closure_runner", "v_op_resolve", "v_nodes", "v_value_error_from", "v_target_ops", "v_read_only"],
     kani=["c10_int_cmp", "c10_float_cmp", "c10_mixed_eq", "c11_int_arith", "c11_int_rem_class", "c11_int_div_class", "c11_float_add", "c11_float_sub",
           "c11_float_div_class", "c11_float_rem_class", "c11_mixed_add_sub", "c11_mixed_div_class", "k_abs_int", "k_abs_float", "k_to_int_scalar", "k_to_float_scalar",
-          "k_try_and_table", "k_try_boolean"],
-    kani_quick=["c10_int_cmp", "c11_int_arith", "c11_int_rem_class", "c11_int_div_class", "c11_float_div_class", "c11_mixed_div_class", "k_abs_int", "k_abs_float", "k_to_int_scalar", "k_to_float_scalar"],
+          "k_try_and_table", "k_try_boolean", "k_ipv4_mask", "k_ipv6_mask"],
+    kani_quick=["k_ipv4_mask", "k_ipv6_mask", "c10_int_cmp", "c11_int_arith", "c11_int_rem_class", "c11_int_div_class", "c11_float_div_class", "c11_mixed_div_class", "k_abs_int", "k_abs_float", "k_to_int_scalar", "k_to_float_scalar"],
+    bounded_native=[dict(unit="compile_small_sources", bound="all 928232 source texts over a 13-letter alphabet (quote, backslash, newline, no-break space, a . = space { ' } ( 0) up to length 5, bare and as string / raw-string / regex / timestamp literals",
+                         functions=["lexer (src/parser/lex.rs incl. unescape_string_literal), LALRPOP parser, compiler, diagnostic::Formatter, Runtime::resolve"],
+                         text="no contract reaches the lexer, the generated parser or the diagnostics renderer (str slicing, generated code): on the stated domain compiling, rendering the diagnostics and running the accepted programs never panics"),
+                    dict(unit="stdlib_watchdog", bound="88 scripted stdlib calls with empty / zero / negative / extreme arguments, each in a child process (10 s, 2 GB)",
+                         functions=["~60 stdlib functions outside the units (see WATCHDOG_PROGRAMS in /verif/replay/src/main.rs)"],
+                         text="on the scripted calls no stdlib function panics the host")],
     trusted=["panic-freedom is claimed only for the functions listed under functions_under_contract, under each unit's stated preconditions (e.g. non-empty blocks, len + |index| < isize::MAX)"],
     not_covered=["lexer, LALRPOP parser, diagnostics formatter, grok, protobuf and ~180 stdlib functions are UNVERIFIED for panics",
                  "memory/stack exhaustion (out of scope by the property)", "Kani does not prove termination"],
@@ -339,4 +349,4 @@ PROPS["C02"] = dict(
     technique="contract-based deductive verification (Verus on mechanically extracted real bodies; Kani for the helpers' kind table)",
 )
 
-HOOK_COMMITS = ["8978857", "33091a8"]
+HOOK_COMMITS = ["8978857", "33091a8", "aaadb43"]
